@@ -236,7 +236,7 @@ PROPS["C12"] = {
             "can be shared; fired ids, per-rule value multisets and per-rule hit counters must agree, 4 repetitions; non-trivial = two "
             "lists share their first transformation over overlapping collections, or a changing target is read twice",
     "essential": {"all": ["shared-prefix-over-overlapping-targets", "changing-target-read-twice", "reads:MATCHED_VAR", "reads:RULE", "reads:ENV",
-                          "reads:MATCHED_VARS", "multimatch-control", ">=2-rules-fired", "plugin-sibling-transformations"]},
+                          "reads:MATCHED_VARS", "multimatch-control", ">=2-rules-fired", "plugin-sibling-transformations", "another-waf-closed-during-the-build"]},
     "assumptions": COMMON_ASSUME + [
         "MATCHED_VAR / MATCHED_VAR_NAME are read only after single-valued matches (after a multi-valued match 'the last match' depends on map order by design)",
         "the environment variable VERIF_C12 is set by the generated rules (process-wide by design)",
